@@ -516,6 +516,23 @@ func TestC13(t *testing.T) {
 				}
 				sum.Tags["cli_cross_checked"]++
 			}
+			if kind == "" && n%6 == 3 && maxParenDepth(c.Text) <= 10 {
+				// -cache only changes how fast the grammar text is read: the same text and flags
+				// with the flag toggled end the same way (accepted or refused)
+				c2 := *c
+				c2.Flags.Cache = !c.Flags.Cache
+				_, _, _, _, to2, res2, _ := checkC13(dir, &c2)
+				sum.Tags["cache_toggled"]++
+				if !to2 && res2.Panic == "" && (res.Exit == 0) != (res2.Exit == 0) {
+					kind, diff = "cache_changes_verdict", fmt.Sprintf("exit %d with %v, exit %d with -cache toggled (stderr %s | %s)", res.Exit, c.Flags.args(), res2.Exit, truncT(res.Stderr, 150), truncT(res2.Stderr, 150))
+				}
+				if to2 {
+					// (inconclusive; the abandoned goroutine owns the descriptors: stop as above)
+					polluted = true
+					sum.write()
+					os.Exit(0)
+				}
+			}
 		}
 		if kind != "" {
 			c.TextQ = fmt.Sprintf("%q", c.Text)
